@@ -231,17 +231,22 @@ type Model struct {
 	LD    bool
 	keys  map[string]*kstate
 	Notes map[string]int // evidence counters (probes) collected while applying
+	// LDTouched: keys whose state depended at some point on whether the
+	// node-local background deletion had already run (local_deletion only)
+	LDTouched map[string]bool
+	cur       string
 	// Overflow counts keys whose candidate set exceeded the cap (checking of
 	// that key restarts from the most recent candidates).
 	Overflow int
 }
 
 func NewModel(ld bool) *Model {
-	return &Model{LD: ld, keys: map[string]*kstate{}, Notes: map[string]int{}}
+	return &Model{LD: ld, keys: map[string]*kstate{}, Notes: map[string]int{}, LDTouched: map[string]bool{}}
 }
 
 func (m *Model) ks(typ byte, key string) *kstate {
 	id := string(typ) + "|" + key
+	m.cur = id
 	k := m.keys[id]
 	if k == nil {
 		k = &kstate{cands: []*cand{{}}, aliveBefore: map[int64]bool{}, deadAfter: map[int64]bool{}}
@@ -399,6 +404,9 @@ func sortedKS(m map[string]*kstate) []string {
 	return ks
 }
 
+// Retire forgets a key (the schedule stops using its name).
+func (m *Model) Retire(id string) { delete(m.keys, id); delete(m.LDTouched, id) }
+
 // Expiry describes an outstanding expiry instant of some candidate.
 type Expiry struct {
 	ID       string
@@ -508,6 +516,7 @@ func (m *Model) views(c0 *cand, t int64, findings bool) []view {
 		vs := []view{{c: c0.clone(), alive: true}}
 		if c0.deadline != 0 {
 			if t >= c0.deadline*sec {
+				m.LDTouched[m.cur] = true
 				d := c0.clone()
 				// the index entry that justified the deletion is consumed
 				d.deadline = 0
@@ -526,6 +535,9 @@ func (m *Model) views(c0 *cand, t int64, findings bool) []view {
 					}
 				}
 				return false
+			}
+			if due(c0.later) || due(c0.stale) {
+				m.LDTouched[m.cur] = true
 			}
 			if due(c0.later) {
 				d := c0.clone()
@@ -950,7 +962,26 @@ func (m *Model) stepHash(c *cand, alive bool, op Op, t int64) []out {
 		return []out{{c: c, w: wI(cur + by), note: note}}
 	case "hdel":
 		if !alive {
-			return one(c, wI(0))
+			outs := one(c, wI(0))
+			if c.present && !m.LD {
+				// known finding: HDEL on an expired hash removes and counts the
+				// fields of the dead generation
+				f := c.clone()
+				n := int64(0)
+				for _, x := range a {
+					if _, ok := f.m[x]; ok {
+						delete(f.m, x)
+						n++
+					}
+				}
+				if n > 0 {
+					if len(f.m) == 0 {
+						f.wipe(false)
+					}
+					outs = append(outs, out{c: f, w: wI(n), via: "hdel-on-expired-hash-counts-old-fields"})
+				}
+			}
+			return outs
 		}
 		n := int64(0)
 		for _, f := range a {
@@ -1282,11 +1313,7 @@ func (m *Model) stepBitmap(c *cand, alive bool, op Op, t int64) []out {
 			_, old = c.m[a[0]]
 		}
 		on := a[1] == "1"
-		if !on && !alive {
-			// clearing a bit of an absent bitmap: Redis creates an all-zero
-			// string; nothing observable in this model distinguishes it
-			return one(c, wI(0))
-		}
+		// (clearing a bit of an absent bitmap creates an all-zero bitmap, as in Redis)
 		note := mk(c, alive)
 		if c.m == nil {
 			c.m = map[string]string{}
@@ -1315,77 +1342,67 @@ func (m *Model) applyMulti(op Op, t int64, actual string) Result {
 	for i, key := range op.Keys {
 		kss[i] = m.ks('k', key)
 	}
-	for _, findings := range []bool{false, true} {
-		per := make([][]out, len(op.Keys))
-		for i := range op.Keys {
-			so := Op{Name: sub, Typ: 'k', Keys: []string{op.Keys[i]}}
-			if op.Name == "plset" {
-				so.Args = []string{op.Args[i]}
+	per := make([][]out, len(op.Keys))
+	for i := range op.Keys {
+		so := Op{Name: sub, Typ: 'k', Keys: []string{op.Keys[i]}}
+		if op.Name == "plset" {
+			so.Args = []string{op.Args[i]}
+		}
+		for _, c := range kss[i].cands {
+			per[i] = append(per[i], m.step(c, so, t, true)...)
+		}
+	}
+	// enumerate the product
+	var matched []combo
+	var expSeen = map[string]bool{}
+	var exp []string
+	idx := make([]int, len(per))
+	for {
+		cur := make([]out, len(per))
+		for i := range per {
+			cur[i] = per[i][idx[i]]
+		}
+		w := combine(op.Name, cur)
+		if w == actual {
+			matched = append(matched, combo{cur})
+		} else if !expSeen[w] {
+			tainted := false
+			for _, o := range cur {
+				if o.c.taint != "" {
+					tainted = true
+				}
 			}
-			for _, c := range kss[i].cands {
-				per[i] = append(per[i], m.step(c, so, t, findings)...)
+			if !tainted {
+				expSeen[w] = true
+				exp = append(exp, w)
 			}
 		}
-		// enumerate the product
-		var matched []combo
-		var expSeen = map[string]bool{}
-		var exp []string
-		idx := make([]int, len(per))
-		for {
-			cur := make([]out, len(per))
-			for i := range per {
-				cur[i] = per[i][idx[i]]
-			}
-			w := combine(op.Name, cur)
-			if w == actual {
-				matched = append(matched, combo{cur})
-			} else if !expSeen[w] {
-				via := false
-				for _, o := range cur {
-					if o.via != "" {
-						via = true
-					}
-				}
-				if !via {
-					expSeen[w] = true
-					exp = append(exp, w)
-				}
-			}
-			i := 0
-			for ; i < len(idx); i++ {
-				idx[i]++
-				if idx[i] < len(per[i]) {
-					break
-				}
-				idx[i] = 0
-			}
-			if i == len(idx) {
+		i := 0
+		for ; i < len(idx); i++ {
+			idx[i]++
+			if idx[i] < len(per[i]) {
 				break
 			}
+			idx[i] = 0
 		}
-		if len(matched) == 0 {
-			if findings {
-				return Result{OK: false, Expected: strings.Join(exp, " | ")}
-			}
-			continue
+		if i == len(idx) {
+			break
 		}
-		via := ""
-		for i := range op.Keys {
-			var keep []out
-			for _, cb := range matched {
-				keep = append(keep, cb.outs[i])
-				if cb.outs[i].via != "" && (via == "" || cb.outs[i].via < via) {
-					via = cb.outs[i].via
-				}
-			}
-			m.commit(kss[i], op, t, keep)
-		}
-		if !findings {
-			via = ""
-		}
-		return Result{OK: true, Via: via}
 	}
-	return Result{}
+	if len(matched) == 0 {
+		return Result{OK: false, Expected: strings.Join(exp, " | ")}
+	}
+	via := ""
+	for i := range op.Keys {
+		var keep []out
+		for _, cb := range matched {
+			keep = append(keep, cb.outs[i])
+		}
+		if v := m.commit(kss[i], op, t, keep); v != "" && (via == "" || v < via) {
+			via = v
+		}
+	}
+	return Result{OK: true, Via: via}
 }
 
 // combine renders the reply of a multi-key command from per-key outcomes
